@@ -14,7 +14,6 @@
   cell behaviour (`CellOps`), every key and value.
 -/
 import Proofs.Row
-import Proofs.RowSerial
 import Proofs.RowTie
 import Proofs.RowTieAll
 
@@ -171,48 +170,6 @@ example :
     OMap.run demoOps []
       [.set [97] 1, .set [98] 2, .set [97] 3, .setAt 7 4, .unmarshal [([98], 5), ([99], 6)]]
       = [([97], 3), ([98], 5), ([], 4), ([99], 6)] := by decide
-
-/-! ### "…and serialisation follows the same order" — on the BYTES, at every depth (`Proofs/RowSerial`) -/
-
-open Jl.JsonQuote (sanitize) in
-/-- After ANY history, with any cell operations: if the row prints, the text is an object whose member names — as a JSON
-    reader delivers them — are exactly the keys of the iteration whose cell is not hidden, in iteration order, which is
-    the key order of the specification (first-insertion order, no duplicates). -/
-theorem serialisation_follows_iteration {E : Type} (env : Value.Env) (hx : JsonPrint.FloatTextOK env.ext)
-    (ops : CellOps Val Dyn E) (hist : List (RowOp Val Dyn)) (bs : Bytes)
-    (hm : RowPrint.marshalRow env (Members.ofList (RowSerial.entries (LRow.empty.run ops hist))) = .ok bs) :
-    ∃ t, Json.unmarshal bs = (t, true) ∧ bs.head? = some 0x7B ∧
-      LineSpec.keysOf t = (RowSerial.iterVisibleKeys (LRow.empty.run ops hist)).map sanitize ∧
-      LineSpec.keysOf t = (RowPrint.visibleKeys (OMap.run ops [] hist)).map sanitize ∧
-      (OMap.keys (OMap.run ops [] hist)).Nodup ∧
-      (RowPrint.visibleKeys (OMap.run ops [] hist)).Sublist (OMap.keys (OMap.run ops [] hist)) :=
-  RowSerial.serial_follows_iteration env hx ops hist bs hm
-
-/-- Every depth: the skeleton of member names of the printed text (what the correspondence check observes as `js=`)
-    is the skeleton of the row itself — a nested row prints ITS visible keys in ITS order, arrays keep element order, a
-    Go map prints in its stored (sorted: `RowSerial.raw_row_prints_sorted`) order.  `ScalarExport`: formatted cells export
-    scalars, which holds of the regenerated tables (`RowSerial.gen_scalarExport`). -/
-theorem serialisation_follows_order_at_every_depth {E : Type} (env : Value.Env)
-    (hx : JsonPrint.FloatTextOK env.ext) (hs : RowSerial.ScalarExport env)
-    (ops : CellOps Val Dyn E) (hist : List (RowOp Val Dyn)) (bs : Bytes)
-    (hm : RowPrint.marshalRow env (Members.ofList (RowSerial.entries (LRow.empty.run ops hist))) = .ok bs) :
-    ∃ tree, Json.unmarshal bs = (tree, true) ∧
-      RowSerial.skelMembers tree = RowSerial.deepMembers (Members.ofList (OMap.run ops [] hist)) :=
-  RowSerial.serial_deep env hx hs ops hist bs hm
-
-/-- "Replacing or re-importing an existing key never moves it": an extra Set / SetValue / ImportAtKey (by key or by
-    position) on an EXISTING key leaves the key list of every later state as it would have been — provided no later step
-    reports an error on either run (an `Import` of a map stops at its first error: `RowSerial` has the kernel-checked
-    histories where the key lists differ otherwise). -/
-theorem existing_key_never_moves (ops : CellOps C V E) (pre post : List (RowOp C V))
-    (op : RowOp C V) (k : Bytes) (c : C)
-    (hk : RowSerial.singleKey (LRow.empty.run ops pre) op = some k)
-    (hc : (LRow.empty.run ops pre).m k = some c)
-    (n₁ : RowSerial.NoErr ops (LRow.empty.run ops pre) post)
-    (n₂ : RowSerial.NoErr ops ((LRow.empty.run ops pre).step ops op).1 post) :
-    (LRow.empty.run ops (pre ++ op :: post)).l = (LRow.empty.run ops (pre ++ post)).l :=
-  RowSerial.existing_key_never_moves ops pre post op k c hk hc n₁ n₂
-
 
 /-! ### The row of the model is `row.go` (Proofs/RowTie, Proofs/RowTieAll)
 
